@@ -71,6 +71,7 @@ class Claims(object):
     def __init__(self):
         self.status = {}     # (tbl, g) -> uninit | init_ok | failed
         self.tainted = set()
+        self.public_tainted = set()     # (node, group) of the public table edited by a mutator
         self.failed_before = set()
         self.tables = {}     # name -> node id
 
@@ -107,6 +108,15 @@ class Claims(object):
             g = MUTATE_GROUP.get(ev[3]) if k == "mutate" else ev[2]
             if g:
                 self.taint(tname(nid, ev[1]), g)
+        elif k in ("mutate", "mutate_walk") and ev[1] == "public":
+            # the user customised the public table: from now on "equal to the public table" is
+            # judged against the canonical values only (a private table must NOT follow the edit)
+            g = MUTATE_GROUP.get(ev[3]) if k == "mutate" else ev[2]
+            if g:
+                self.public_tainted.add((nid, g))
+                for d in dependents(g):
+                    self.public_tainted.add((nid, d))
+                self.public_tainted.add((nid, "calc_public"))
 
     def taint(self, tbl, g):
         self.tainted.add((tbl, g))
